@@ -85,7 +85,14 @@ func (g *genState) pickSchema(idx int) schemaSpec {
 			{path: "f", kind: ixFloat}, {path: "txt", kind: ixText}}
 		switch idx % 3 {
 		case 0:
-			sc = append(sc, idxSpec{path: "fv", kind: ixFlat, dim: g.dim, metric: "euclidean"})
+			if idx%6 == 3 { // product quantiser trained within the history: points first persisted in quantised form
+				if g.dim == 3 {
+					g.dim = 4
+				}
+				sc = append(sc, idxSpec{path: "fv", kind: ixFlat, dim: g.dim, metric: "euclidean", q: quantSpec{kind: 3, ncent: 2 + r.IntN(3), nsub: 2, trigger: 4 + r.IntN(6)}})
+			} else {
+				sc = append(sc, idxSpec{path: "fv", kind: ixFlat, dim: g.dim, metric: "euclidean"})
+			}
 		case 1:
 			sc = append(sc, idxSpec{path: "fv", kind: ixFlat, dim: g.dim, metric: "euclidean", q: quantSpec{kind: 2, trigger: 3 + r.IntN(4), metric: "hamming"}})
 			sc = append(sc, idxSpec{path: "vec", kind: ixVamana, dim: g.dim, metric: "euclidean", search: 30, degree: 32, alpha: 1.2})
@@ -614,6 +621,7 @@ func (g *genState) genBatch(step int) batchSpec {
 			if r.IntN(2) == 0 {
 				g.rewriteOwn(id, &doc)
 			}
+			g.metricZeroUpdate(id, &doc)
 			b.points = append(b.points, pointSpec{id: id, doc: doc})
 		}
 		// the same id twice in one update batch: only where the point store alone is judged (C01).
@@ -720,6 +728,76 @@ func (g *genState) noteApplied(b batchSpec, okIds []uuid.UUID) {
 }
 
 // values currently stored at a path (for query generation)
+// metricZeroUpdate: for dot / cosine vector indexes, sometimes replace the new vector of an update by one whose
+// index distance to the STORED vector of that point is exactly 0 without being equal to it (dot: an orthogonal or
+// the zero vector; cosine: another vector with dot product 1), or by the stored vector itself. "Distance 0" is
+// "same vector" for euclidean only.
+func (g *genState) metricZeroUpdate(id uuid.UUID, doc *Val) {
+	r := g.r
+	old, ok := g.sent[id]
+	if !ok {
+		return
+	}
+	for _, ix := range g.schema {
+		if (ix.kind != ixVamana && ix.kind != ixFlat) || (ix.metric != "dot" && ix.metric != "cosine") || r.IntN(3) != 0 {
+			continue
+		}
+		cur, found := old, true
+		for _, seg := range strings.Split(ix.path, ".") {
+			if cur.K != kMap {
+				found = false
+				break
+			}
+			nx, ok := cur.get(seg)
+			if !ok {
+				found = false
+				break
+			}
+			cur = nx
+		}
+		if !found || cur.K != kArr || len(cur.A) != ix.dim || ix.dim < 2 {
+			continue
+		}
+		ov := make([]float32, ix.dim)
+		for i := range ov {
+			ov[i] = math.Float32frombits(uint32(cur.A[i].Bits))
+		}
+		nv := make([]float32, ix.dim)
+		k := r.IntN(4)
+		if ix.metric == "cosine" && k == 0 {
+			k = 1 // no zero vectors under cosine (normalisation divides by the norm)
+		}
+		switch k {
+		case 0: // the zero vector
+		case 1: // the stored vector again
+			copy(nv, ov)
+		default: // orthogonal: rotate the first two components
+			nv[0], nv[1] = -ov[1], ov[0]
+			if nv[0] == 0 && nv[1] == 0 {
+				nv[0] = 1
+				if ov[0] != 0 {
+					nv[0], nv[1] = 0, 0
+				}
+			}
+			if ix.metric == "cosine" {
+				// dot product 1 with the stored vector: nv = ov / |ov|^2 over the first two components, only where
+				// that is exact in float32 (|ov|^2 a power of two): the reference distances are exact rationals
+				n2 := ov[0]*ov[0] + ov[1]*ov[1]
+				if m, e := math.Frexp(float64(n2)); n2 > 0 && m == 0.5 && e > -20 && e < 20 {
+					for i := range nv {
+						nv[i] = 0
+					}
+					nv[0], nv[1] = ov[0]/n2, ov[1]/n2
+				} else {
+					copy(nv, ov)
+				}
+			}
+		}
+		setPath(doc, ix.path, vVec(nv))
+		sortDoc(doc)
+	}
+}
+
 func (g *genState) storedAt(path string) []Val {
 	var out []Val
 	for _, u := range g.pool {
